@@ -2,7 +2,7 @@
 # usage: facts.sh <repo dir> <out json> [extra cargo check args...]
 # Extracts facts from the *current working tree* of <repo dir>.  Fails closed.
 set -euo pipefail
-REPO=$1; OUT=$2; shift 2
+REPO=$(realpath "$1"); OUT=$(realpath -m "$2"); shift 2
 HERE=$(cd "$(dirname "$0")" && pwd)
 DRV=$HERE/driver/target/release/gdsl-facts
 WORK=${GDSL_WORK:-$HERE/../.work}
